@@ -73,3 +73,8 @@ pub mod c16 {
     use super::*;
     include!("c16.rs");
 }
+pub mod c18 {
+    #[allow(unused_imports)]
+    use super::*;
+    include!("c18.rs");
+}
